@@ -267,7 +267,7 @@ func runC15(c *config) {
 			// the optional unwind target absent ("unwind to caller"): no successor, no slot for it
 			pad := bs[0].NewCleanupPad(constant.None)
 			t := bs[0].NewCleanupRet(pad, nil)
-			for _, op := range t.Operands() {
+			for _, op := range c15Ops(c, t) {
 				if op == nil || *op == nil || fmt.Sprintf("%v", reflect.ValueOf(*op).IsNil()) == "true" {
 					o.Fail("succs_are_targets", "", "cleanupret without unwind target exposes an operand slot that holds nothing", map[string]string{"term": "cleanupret"})
 				}
@@ -306,6 +306,7 @@ func runC15(c *config) {
 			c15History(c, u, "constructed:"+strings.TrimPrefix(fmt.Sprintf("%T", u), "*ir."))
 		}
 	}
+	c15LenRun(c) // c15lens.go: list-valued operand fields of differing lengths, constructed and parsed
 	o.StatN("kinds_reached", len(kinds))
 	var ks []string
 	for k := range kinds {
@@ -316,7 +317,7 @@ func runC15(c *config) {
 
 func c15Check(c *config, f *ir.Func, u c15User, kind string) {
 	o := c.out
-	ops := u.Operands()
+	ops := c15Ops(c, u)
 	cells, bundle := c15Cells(u)
 	o.Stat("users")
 	before := u.LLString()
@@ -405,7 +406,7 @@ func c15Succs(c *config, f *ir.Func) {
 		if b.Term == nil {
 			continue
 		}
-		succs := b.Term.Succs()
+		succs := c15SuccsOf(c, b.Term)
 		// targets in order, by reflection over the terminator's block-typed fields
 		var want []*ir.Block
 		rv := reflect.ValueOf(b.Term).Elem()
@@ -516,7 +517,7 @@ func c15ReplaceAll(c *config, f *ir.Func) {
 			users = append(users, b.Term.(c15User))
 		}
 		for _, u := range users {
-			for _, slot := range u.Operands() {
+			for _, slot := range c15Ops(c, u) {
 				if *slot == value.Value(old) {
 					s := slot
 					*s = repl
@@ -569,13 +570,13 @@ func c15SuccsLive(c *config, f *ir.Func) {
 		if b.Term == nil {
 			continue
 		}
-		before := append([]*ir.Block{}, b.Term.Succs()...)
+		before := append([]*ir.Block{}, c15SuccsOf(c, b.Term)...)
 		if len(before) == 0 {
 			continue
 		}
 		// the first slot holding the first successor
 		var slot *value.Value
-		for _, op := range b.Term.Operands() {
+		for _, op := range c15Ops(c, b.Term) {
 			if blk, ok := (*op).(*ir.Block); ok && blk == before[0] {
 				slot = op
 				break
@@ -592,7 +593,7 @@ func c15SuccsLive(c *config, f *ir.Func) {
 			}
 		}
 		*slot = nb
-		after := b.Term.Succs()
+		after := c15SuccsOf(c, b.Term)
 		o.Stat("succs_live.terminators")
 		text := b.Term.LLString()
 		if len(after) == 0 || after[0] != nb {
@@ -617,7 +618,7 @@ func c15SuccsHistory(c *config, r *rng, f *ir.Func) {
 			continue
 		}
 		var slots []*value.Value
-		for _, op := range b.Term.Operands() {
+		for _, op := range c15Ops(c, b.Term) {
 			if _, ok := (*op).(*ir.Block); ok {
 				slots = append(slots, op)
 			}
@@ -635,7 +636,7 @@ func c15SuccsHistory(c *config, r *rng, f *ir.Func) {
 			if r.chance(55) {
 				ops = append(ops, "S")
 				var ss []string
-				for _, sb := range b.Term.Succs() {
+				for _, sb := range c15SuccsOf(c, b.Term) {
 					ss = append(ss, fmt.Sprint(idx[sb]))
 				}
 				outs = append(outs, strings.Join(ss, ","))
